@@ -94,7 +94,7 @@ def end_slopes(repo, run):
             ok = any(isinstance(s2, ast.Assign) and isinstance(s2.value, ast.Call) and (dotted(s2.value.func) or "").endswith("compute_step") and
                      isinstance(s2.targets[0], ast.Tuple) and len(s2.targets[0].elts) == 3 and src(s2.targets[0].elts[2]) == v.id for s2 in step.body)
             iff = st._parent
-            okg = isinstance(iff, ast.If) and st in iff.body and _fsal_explicit_guard(iff.test)
+            okg = extract.executes_iff_fsal_explicit(st, step)
             run.judged(rid, "RK step FSAL slope: %s under `%s`" % (src(st), src(iff.test) if isinstance(iff, ast.If) else None), ok=ok and okg)
             if not ok:
                 run.report("C06.6", ITY, st, "final_rhs is taken from a value that is not the last-stage slope of an FSAL table")
